@@ -520,6 +520,15 @@ Definition fresh (c : cls) : obj :=
          end
   end.
 
+(* a brand-new instance of the same class as [o] (constructor arguments that decode never
+   touches are those of [o]: ExceptionResponse(function_code), IllegalFunctionRequest(function_code)) *)
+Definition fresh_like (o : obj) : obj :=
+  match o with
+  | OExc orig fc _ => OExc orig fc 0
+  | OIllegal fc => OIllegal fc
+  | _ => fresh (class_of o)
+  end.
+
 (* request.__class__ = subtype (after decode), when the instance has a sub_function_code *)
 Definition obj_sub (o : obj) : option Z :=
   match o with
